@@ -217,10 +217,20 @@ type kctx struct {
 	retK   string                              // kind of the value a `return` yields
 	brk    func(c *kctx) string                // translation of `break` out of the enclosing switch
 	io     map[string]string                   // Go name → "writer" | "buffer"
+	ext    *kext                               // extension hooks of another generator (cmdsteps.go); nil for the C15 steps
+	ctxNm  string                              // the name of the *flags.Context parameter ("" = `ctx`, the C15 steps)
+}
+
+// kext: expression / call / assignment forms another generator adds to the translator; each hook is asked first and
+// answers false for what it does not know
+type kext struct {
+	expr   func(c *kctx, x ast.Expr, pre *[]kbind) (kv, bool)
+	call   func(c *kctx, n *ast.CallExpr, pre *[]kbind) (kv, bool)
+	assign func(c *kctx, n *ast.AssignStmt, rest []ast.Stmt, k func(c *kctx) string) (string, bool)
 }
 
 func (c *kctx) clone() *kctx {
-	n := &kctx{f: c.f, vars: map[string]kv{}, seq: map[string]int{}, local: map[string]bool{}, inLoop: c.inLoop, ret: c.ret, retK: c.retK, brk: c.brk, io: c.io}
+	n := &kctx{f: c.f, vars: map[string]kv{}, seq: map[string]int{}, local: map[string]bool{}, inLoop: c.inLoop, ret: c.ret, retK: c.retK, brk: c.brk, io: c.io, ext: c.ext, ctxNm: c.ctxNm}
 	for k, v := range c.vars {
 		n.vars[k] = v
 	}
@@ -355,6 +365,11 @@ func typeKind(x ast.Expr) string {
 }
 
 func (c *kctx) expr(x ast.Expr, pre *[]kbind) kv {
+	if c.ext != nil && c.ext.expr != nil {
+		if v, ok := c.ext.expr(c, x, pre); ok {
+			return v
+		}
+	}
 	switch n := x.(type) {
 	case *ast.ParenExpr:
 		return c.expr(n.X, pre)
@@ -531,6 +546,11 @@ func (c *kctx) args(n *ast.CallExpr, kinds []string, pre *[]kbind) []string {
 }
 
 func (c *kctx) call(n *ast.CallExpr, pre *[]kbind) kv {
+	if c.ext != nil && c.ext.call != nil {
+		if v, ok := c.ext.call(c, n, pre); ok {
+			return v
+		}
+	}
 	// calls of variables: a locator, a function variable
 	if id, ok := n.Fun.(*ast.Ident); ok {
 		if v, isVar := c.vars[id.Name]; isVar {
